@@ -77,6 +77,20 @@ def handle (args out : List String) : Verdict :=
   | ["tcp6", k, payload] => handleTcp k payload out
   -- through the real browser component; `idle` (nothing sent, nothing closed): the handler's read ends with the
   -- connection deadline the TCP server set, like an empty read
+  -- measurement: a client that asks for a reply far larger than the socket buffers and does not read.  `stall:<S>:<F>`:
+  -- F bytes to a client that reads, S bytes to one that stalls past the client timeout: the server must have given up (S < F)
+  | ["cstall", _, _] =>
+    match out with
+    | [tok] =>
+      (match tok.splitOn ":" with
+       | ["stall", s, f] =>
+         (match s.toNat?, f.toNat? with
+          | some s, some f => if s < f then .agree
+            else if f ≤ 8000000 then .agree   -- the reading client itself was cut short (a stalled machine): nothing to judge
+            else .disagreeFails s!"sig=tcp-write-not-bounded the stalled client received the whole reply ({s} of {f} bytes)"
+          | _, _ => .bad "C06 cstall numbers")
+       | _ => .bad s!"C06 cstall: {tok}")
+    | _ => .bad "C06 cstall shape"
   | ["ctcp", k, payload] => handleTcp k (if payload = "idle" then "none" else payload) out
   -- measurement: `crypt.Encrypt` under the concurrency of the connection goroutines (no model: the oracle is "no panic, every round trip exact")
   | ["encpar", _, _] =>
